@@ -98,6 +98,8 @@ class ProgGen:
         for _ in range(50):
             base = r.choice(WORDS)
             style = self.stress if self.stress != "mixed" else r.choice(["plain", "plain", "same-name", "conversion", "base"])
+            if style == "anon":
+                style = "plain"
             if style == "conversion":
                 other = r.choice(WORDS[:4])
                 name = r.choice([f"{base}_{other}", f"{base}__{other}", f"{base}_{other.capitalize()}", f"{base}{other.capitalize()}"])
@@ -157,6 +159,9 @@ class ProgGen:
 
     def callback(self):
         r = self.r
+        if self.stress == "anon":
+            self.features.add("callback:small-signature-pool")
+            return r.choice(["(a0: i32) -> bool", "()", "(a0: string)"])
         ps = ", ".join(f"a{i}: {r.choice(['i32', 'string', 'bool', 'f64'])}" for i in range(r.choice([0, 1, 1, 2])))
         ret = r.choice(["", " -> bool", " -> i32"])
         self.features.add("callback")
@@ -166,6 +171,8 @@ class ProgGen:
     def decl(self, ns: tuple, ind: str) -> str:
         r = self.r
         kinds = ["enum", "flags", "record", "record", "record", "interface", "interface", "function", "error"]
+        if self.stress == "anon":
+            kinds = ["interface", "interface", "interface", "record"]
         k = r.choice(kinds)
         name = self.fresh_name(ns, k)
         q = ".".join(ns + (name,))
@@ -198,7 +205,7 @@ class ProgGen:
             for i in range(r.choice([1, 2, 3])):
                 asy = self.allow_async and r.random() < 0.3
                 ps = [f"p{j}: {self.param_type()}" for j in range(r.choice([0, 1, 2]))]
-                if self.allow_callbacks and r.random() < 0.3:
+                if self.allow_callbacks and r.random() < (0.9 if self.stress == "anon" else 0.3):
                     ps.append(f"cb: {self.callback()}")
                 ret = r.choice(["", f" -> {self.prim()}", f" -> {self.param_type()}"])
                 if asy and not ret:
